@@ -6,6 +6,7 @@ pub type AreaFn = fn(&Value) -> Vec<Value>;
 mod c15rt;
 pub mod co;
 mod conc;
+mod mon;
 pub mod sched;
 mod pool;
 mod net20;
@@ -20,6 +21,7 @@ pub fn lookup(name: &str) -> Option<AreaFn> {
     match name {
         "time" => Some(time::run),
         "c15rt" => Some(c15rt::run),
+        "mon" => Some(mon::run),
         "ows" => Some(ows::run),
         "co" => Some(co::run),
         "conc" => Some(conc::run),
